@@ -1,5 +1,6 @@
 """C04 - geometry-to-TOUGH2-grid conversion is geometrically exact and index-consistent."""
 import math
+import numpy as np
 from hypothesis import strategies as st
 from vlib.core import Search, HarnessError
 from gens import geo
@@ -25,7 +26,13 @@ def case_strategy():
         rc = draw(geo.geometry(max_nx=5, max_ny=5, max_nz=5, shipped=True, ops=True, with_surfaces=True,
                                with_wells=False, header=True, max_shipped_cols=30))
         rc.get('header', {}).pop('unit', None)
-        return {'rc': rc, 'blockmap': draw(st.sampled_from([None, None, 'all', 'some']))}
+        then = draw(st.sampled_from([None, None, 'translate', 'translate', 'rotate', 'same']))
+        if then == 'translate':
+            then = ['translate', [draw(st.sampled_from([0.0, 12.5, -300.0])), draw(st.sampled_from([0.0, 40.0])),
+                                  draw(st.sampled_from([0.0, 7.25, -55.0, 120.0]))]]
+        elif then == 'rotate': then = ['rotate', draw(st.sampled_from([30.0, 90.0, -45.0]))]
+        elif then: then = [then]
+        return {'rc': rc, 'blockmap': draw(st.sampled_from([None, None, 'all', 'some'])), 'then': then}
     return s()
 
 
@@ -33,7 +40,7 @@ def searches(tier):
     q = tier == 'quick'
     return [Search('shipped', 'enum', lambda: [{'rc': {'base': {'kind': 'shipped', 'file': f}}, 'blockmap': None}
                                                for f in (['g7.dat', 'g5.dat'] if q else geo.SHIPPED)], shards=7),
-            Search('generated', 'hyp', case_strategy, n=600 if q else 16000, shards=8 if q else 16)]
+            Search('generated', 'hyp', case_strategy, n=1000 if q else 16000, shards=8 if q else 16)]
 
 
 def close(a, b, rel=1e-9, ab=1e-9):
@@ -52,11 +59,26 @@ def run_case(case, R):
     if bad:
         for b in bad: R.exclude('input:' + b)
         return
+    if verify(case, R, g) is False: return
+    # conversion history on ONE geometry object: convert, move the geometry, convert again - the second grid must be
+    # the grid of the geometry as it is now (nothing remembered from the first conversion)
+    then = case.get('then')
+    if then:
+        R.label('then:' + then[0])
+        with R.lib('then:' + then[0]):
+            if then[0] == 'translate': g.translate(np.array([float(v) for v in then[1]]))
+            elif then[0] == 'rotate': g.rotate(float(then[1]))
+        verify(case, R, g)
+
+
+def verify(case, R, g):
+    import t2grids
+    rc = case['rc']
     lays = g.layerlist
     und = lays[1:]
     zbot = und[-1].bottom
     if any(c.surface <= zbot for c in g.columnlist):
-        R.exclude('domain:surface-at-or-below-model-bottom'); return
+        R.exclude('domain:surface-at-or-below-model-bottom'); return False
     # ---------------------------------------------------------------- expected blocks (independent enumeration)
     natm = {0: 1, 1: g.num_columns, 2: 0}[g.atmosphere_type]
     names = list(g.block_name_list)
